@@ -65,8 +65,10 @@ def install_hook():
 
 def shards(tier, seed):
     if tier == "quick":
-        return [{"seed": seed * 1000 + i, "n": 12} for i in range(16)]
-    return [{"seed": seed * 1000 + i, "n": 2000} for i in range(32)]
+        return [{"seed": seed * 1000 + i, "python_O": i % 3 == 2,
+                 "n": 12} for i in range(16)]
+    return [{"seed": seed * 1000 + i, "python_O": i % 3 == 2,
+                 "n": 2000} for i in range(32)]
 
 
 def run_main(mod_main, argv):
